@@ -147,6 +147,12 @@ def check(case, out):
     if m < n or oracle.rank(B) < n:
         out.exclude("rank-deficient-nodes")
         return
+    if not exact:
+        # "well-conditioned inputs": the library solves the normal equations, whose condition number is cond(B)^2
+        condB = float(np.linalg.cond(np.array([[float(x) for x in row] for row in B])))
+        if not condB < 1e4:
+            out.exclude("float-profile:ill-conditioned(cond(B) >= 1e4)")
+            return
     if mode == "inspace":
         gen_state = State(U, p, [tuple(oracle.frac(lib.conv_val(x, num)) for x in (q if dim else [q])) for q in case["Q"]],
                           w, dim == 0)
